@@ -345,7 +345,7 @@ impl Prop for C23 {
         ex.model_input = Some(show(&before));
 
         // ---------------- oracle: the statement of C23 on before/after ----------------
-        let max = 31usize; // the statement's numbers, not the code's constants
+        let max = 30usize; // the statement's numbers, not the code's constants
         let keep = 10usize;
         let by_id: BTreeMap<u32, P> = before.iter().map(|p| (p.id, *p)).collect();
         for p in &after {
